@@ -119,6 +119,7 @@ fn cmd_drive(m: &HashMap<String, Vec<String>>) -> i32 {
             scratch: scratch.clone(),
             shapes: shapes.clone(),
             reps: p["reps"].as_u64().map(|x| x as usize),
+            observe: p["observe"].as_u64().map(|x| x as usize).unwrap_or(0),
             progress: one(m, "progress").map(PathBuf::from),
         };
         metas.push(drive::run(&o, &mut out, tid));
